@@ -18,7 +18,7 @@ RULE = ("Hypothesis-generated training lists (1-40 distinct structured passwords
         "structure, raw structure and PRINCE list: same item set (each once), probability == count/total (IEEE division), file "
         "order non-increasing, sum 1; Markov pseudo-count N/coverage-N, absent for coverage 1, alone for coverage 0; E/W "
         "structures only in raw_grammar.txt. Determinism: a second in-process run and a subprocess run with another hash seed "
-        "must give byte-identical trees apart from the uuid line. Non-trivial = >=2 distinct structures and >=1 tie in counts; "
+        "must give byte-identical trees apart from the uuid line; re-training list B into a directory that already holds the ruleset of list A must equal training B into an empty directory; trainer.py run as a subprocess must write the same ruleset as run_trainer(). Non-trivial = >=2 distinct structures and >=1 tie in counts; "
         "distinct = hash of (list, options).")
 ASSUMPTIONS = ["the segmentation itself is judged by C05; C06 takes the recorded segmentation as given",
                "a run in which the trainer does not complete (no OMEN n-grams, smoothing division by zero) is skipped and counted",
